@@ -12,7 +12,7 @@ SHRINK = True
 KERNEL_CATS = {"kernel", "Kernel", "gpu_memset", "Memset", "gpu_memcpy", "Memcpy", "mtia_ccp_events"}
 ASSUMPTIONS = [
     "well-formed trace whose kernels do not overlap within a stream (simulator: FIFO streams); non-negative durations",
-    "idle_time is compared exactly (integers), idle_time_ratio against round(idle/total, 2) within 0.006; a category row that is absent counts as 0",
+    "idle_time is compared exactly (integers), idle_time_ratio within 0.005 of the unrounded idle/total (any tie rule accepted); a category row that is absent counts as 0",
     "a stream requested but without kernels yields no rows",
 ]
 
@@ -90,8 +90,8 @@ def _cmp(tag, key, got, exp) -> List[str]:
         if g[0] != v:
             out.append(f"{key} {cat}: impl idle_time={g[0]} {tag}={v}")
         elif total != 0 and cat in got:
-            e = round(v / total, 2)
-            if g[1] == "nan" or abs(float(g[1]) - e) > 0.006:
+            e = v / total
+            if g[1] == "nan" or abs(float(g[1]) - e) > 0.005 + 1e-9:
                 out.append(f"{key} {cat}: impl ratio={g[1]} {tag}={e}")
     return out
 
